@@ -138,6 +138,58 @@ theorem C17_repair_complete (H : Bytes → Bytes) (hH : ∀ b, (H b).length = 32
       have : k ∈ allMissing (toP t) := by rw [hl]; simp
       exact absurd ((C17_all_missing _ k).mp this) (not_occurs_toP k t)
 
+/-- the trie version plays no role in the repair BY CONSTRUCTION of the (fixed) code's model: `mergeDB` ignores it — "at any
+    version" in `C17_repair` is quantification over an unused argument.  The content of that clause is the pre-fix
+    witness `mergeDBOld_fails` (the old code did depend on the version, and failed). -/
+theorem C17_repair_version_irrelevant (v v' : Nat) (s : Store) (donor : List (Bytes × Repr)) :
+    mergeDB v s donor = mergeDB v' s donor := rfl
+
+/-- Repair from a donor that holds MORE than the missing nodes (the normal sync situation: nodes of other tries, of other
+    versions, nodes the store already has): the donor may hold anything under keys the complete store `sFull` does not
+    use, and must agree with it on the keys it does use (content addressing); `s` may likewise hold other entries.  The
+    store again holds every node of `t`. -/
+theorem C17_repair_superset (H : Bytes → Bytes) (t : Node) (pre : List Nib) (sFull s : Store) (donor : List (Bytes × Repr))
+    (v : Nat)
+    (hfull : Resolves H sFull.get t pre)
+    (hsub : ∀ k b b', sFull.get k = some b → s.get k = some b' → b' = b)
+    (hdonor : ∀ e ∈ donor, ∀ b, sFull.get e.1 = some b → encode e.2 = b)
+    (hcover : ∀ k b, sFull.get k = some b → s.get k = some b ∨ ∃ r, (k, r) ∈ donor) :
+    Resolves H (mergeDB v s donor).get t pre := by
+  intro e he
+  have hf := hfull e he
+  exact mergeDB_get_superset v sFull.get donor s hsub hdonor e.1 _ hf (hcover e.1 _ hf)
+
+/-- non-vacuity: the donor of the earlier example plus an unrelated entry under a key the complete store does not use -/
+example : ∃ (sFull : Store) (donor : List (Bytes × Repr)), (∀ e ∈ donor, ∀ b, sFull.get e.1 = some b → encode e.2 = b) ∧
+    ∃ e ∈ donor, sFull.get e.1 = none := by
+  refine ⟨[([1], encode ⟨1, 1, .value [7]⟩)], [([1], ⟨1, 1, .value [7]⟩), ([2], ⟨5, 5, .value [9]⟩)], ?_, ([2], ⟨5, 5, .value [9]⟩), by simp, by simp [Store.get]⟩
+  intro e he b hb
+  simp at he
+  rcases he with rfl | rfl
+  · simpa [Store.get] using hb
+  · simp [Store.get] at hb
+
+/-- the API function: `GetAllMissingNodes` returns an error iff the root node itself is absent; otherwise its list is, as a
+    set, exactly the absent keys reachable through present decodable nodes (the list may repeat a key) -/
+theorem C17_getAllMissing (get : Bytes → Option Bytes) (root : Bytes) (pt : PTree) (h : Unfolds get root pt) :
+    (getAllMissing pt = none ↔ get root = none) ∧
+    ∀ l, getAllMissing pt = some l → ∀ k, k ∈ l ↔ (get k = none ∧ Reach get root k) := by
+  obtain ⟨h1, h2⟩ := getAllMissing_of_unfolds get root pt h
+  constructor
+  · constructor
+    · intro hn
+      cases hr : get root with
+      | none => rfl
+      | some b => rw [h2 (by rw [hr]; simp)] at hn; cases hn
+    · exact h1
+  · intro l hl k
+    cases hr : get root with
+    | none => rw [h1 hr] at hl; cases hl
+    | some b =>
+      rw [h2 (by rw [hr]; simp)] at hl
+      cases hl
+      exact C17_all_missing_exact get root pt h k
+
 /-- … and reads its full content again: on the repaired store the model's `buildP` (any fuel beyond the depth) yields a
     tree on which every lookup answers what the structural trie `t` holds at that path -/
 theorem C17_repair_reads (H : Bytes → Bytes) (hH : ∀ b, (H b).length = 32) (t : Node) (pre : List Nib) (hw : WFn t)
